@@ -31,6 +31,10 @@ def _cancel(r, simp, tier):
     r.add_tlc(res, "subs_cancel_model")
     for v in res["violated"]:
         r.violation("model:" + v, "Subs.tla invariant %s violated (design of the cancellation)" % v)
+    # chains of any length (TLAPS): deleting two adjacent entries that compose to the identity anywhere in a chain preserves the composition,
+    # and only such deletions do; Subs!ApplyHom (checked by TLC above) is the homomorphism law the proof assumes
+    common.prove(r, "SubsProofs", tier, "cancelling a pair of equal self-inverse substitutions preserves the composition of a chain of any length", selftests=[
+        ("SubsProofs.tla", "NEW w \\in Seq(G), Comp(w) = Id", "NEW w \\in Seq(G), Comp(w) \\in G")])      # deleting an arbitrary sub-chain must NOT be provable
     text = _texts()
     back = {v: k for k, v in text.items()}
     dup = simp.get_all_dup(2)
